@@ -47,7 +47,8 @@ class Prop(core.Prop):
                 'x': [1, 2, 3, 4],
                 'kinds': [['A', 'M', 'B', 'X', 'Zx', 'S'], ['A', 'M', 'B', 'Zx', 'S', 'M0', 'Ch', 'Mn', 'Sw']] +
                          ([['A', 'M', 'B', 'X', 'Zx', 'S', 'Ch', 'M0']] if th else []),
-                'forms': ['method', 'stack_files', 'pncmfopen', 'method-disk', 'method-iter', 'method-tuple'],
+                'forms': ['method', 'stack_files', 'pncmfopen', 'method-disk', 'method-iter', 'method-tuple', 'open_mfdataset',
+                          'open_mfdataset-auto'],
                 'multi': 'ordered pairs and triples%s of offset copies with lengths 1..%d along the stack dimension'
                          % (' and quadruples' if th else '', 3 if th else 2),
                 'multi_lens': [1, 2, 3] if th else [1, 2],
@@ -117,7 +118,12 @@ class Prop(core.Prop):
                 for splitter in ('ref', 'lib'):
                     # (method-iter / method-tuple: the other files handed over as a one-shot iterator / a tuple)
                     forms = ['method'] if splitter == 'lib' else ['method', 'stack_files', 'pncmfopen',
-                                                                   'method-disk', 'method-iter', 'method-tuple']
+                                                                   'method-disk', 'method-iter', 'method-tuple',
+                                                                   'open_mfdataset']
+                    if splitter == 'ref' and (group['dim'] == 't' or
+                                              (group['file']['unl'] and group['dim'] == 't')):
+                        # (the universe files' unlimited dimension, when they have one, is t)
+                        forms.append('open_mfdataset-auto')
                     for form in forms:
                         yield {'kind': 'split', 'file': group['file'], 'dim': group['dim'],
                                'pieces': [list(p) for p in comp], 'splitter': splitter, 'form': form}
@@ -168,7 +174,7 @@ class Prop(core.Prop):
         if form == 'stack_files':
             from PseudoNetCDF.core._functions import stack_files
             return self._call(stack_files, list(reals), d)
-        if form == 'pncmfopen':
+        if form in ('pncmfopen', 'open_mfdataset', 'open_mfdataset-auto'):
             paths = []
             saved = {}
             for i, r in enumerate(reals):
@@ -182,6 +188,14 @@ class Prop(core.Prop):
                 r.save(p, format='NETCDF4_CLASSIC', verbose=0).close()
                 paths.append(p)
                 saved[id(r)] = p
+            if form == 'open_mfdataset':
+                # the class-level entry point of the netCDF reader, stacking dimension named
+                from PseudoNetCDF.core._files import netcdf
+                return netcdf.open_mfdataset(*paths, stackdim=d)
+            if form == 'open_mfdataset-auto':
+                # ... and left to be found: the unlimited dimension, else the one called 't'
+                from PseudoNetCDF.core._files import netcdf
+                return netcdf.open_mfdataset(*paths)
             return self._call(P.pncmfopen, paths, stackdim=d, format='netcdf')
         raise ValueError(form)
 
@@ -224,7 +238,7 @@ class Prop(core.Prop):
         self._open = []
         d = case['dim']
         form = case['form']
-        disk_forms = ('pncmfopen', 'method-disk')
+        disk_forms = ('pncmfopen', 'method-disk', 'open_mfdataset', 'open_mfdataset-auto')
         if form in disk_forms or case.get('first_form') in disk_forms:
             # classic netCDF files cannot hold multi-character strings, nor a valid cell equal to the fill
             # value (it reads back as missing): those variables stay in memory only
@@ -295,7 +309,7 @@ class Prop(core.Prop):
         if wf:
             vs.append(viol('not-wellformed', sig, '; '.join(wf), **scope))
         snap = lib.snap(got, cls='PseudoNetCDFFile')
-        disk = form in ('pncmfopen', 'method-disk')
+        disk = form in ('pncmfopen', 'method-disk', 'open_mfdataset', 'open_mfdataset-auto')
         diffs = rfile.file_diff(snap, exp, attrs=not disk, gattrs=not disk, order=not disk,
                                 dtype=True)
         if diffs:
